@@ -49,7 +49,16 @@ func writeEvidence(prop, tier string, seed int64, a *aggregate, sg map[string]in
 		}
 	}
 	reachedSites := map[string]bool{}
+	fnReached, fsReached := 0, 0
 	for s := range a.sites {
+		if strings.HasPrefix(s, "fn:") {
+			fnReached++ // optional function-entry scheduling points (a per-run subset is switched on)
+			continue
+		}
+		if strings.HasPrefix(s, "fs:") {
+			fsReached++ // read-side file-system calls as scheduling points
+			continue
+		}
 		// normalise "sent@x" / "send@x" etc. to the source site
 		if i := strings.Index(s, "@"); i >= 0 {
 			reachedSites[s[i+1:]] = true
@@ -92,6 +101,8 @@ func writeEvidence(prop, tier string, seed int64, a *aggregate, sg map[string]in
 		"probes":                       a.probes,
 		"yield_sites_reached":          len(reachedSites),
 		"yield_sites_instrumented":     instrumented,
+		"fn_entry_points_that_yielded": fnReached,
+		"fs_call_kinds_that_yielded":   fsReached,
 		"top_sites":                    sortedTop(a.sites, 25),
 		"uncontrolled_map_ranges":      a.uncontrolled,
 		"ambiguous_goroutine_adoptions": a.ambiguous,
